@@ -77,12 +77,15 @@ def optimize_prec_assignment(model: MPS,
                     raise ValueError("Unsupported quantizer type")
 
                 best_cost = copy.deepcopy(base_cost)
-                best_cost_w_theta_alpha_array = copy.deepcopy(w_theta_alpha_array)
                 config_cost = _compute_cost(model, layer, w_theta_alpha_array, cost_fn_map, lname, node)
                 assert config_cost == base_cost, "The cost of the layer is not consistent with the original configuration"
 
                 sorted_indexes = torch.argsort(layer.w_mps_quantizer.precision)
+                # position of each precision in the sorted list: x[inverse_indexes] undoes x[sorted_indexes]
+                inverse_indexes = torch.argsort(sorted_indexes)
                 sorted_precisions = [layer.w_mps_quantizer.precision[i] for i in sorted_indexes]
+                # the best configuration is kept in ascending order of precision, like the candidates
+                best_cost_w_theta_alpha_array = [copy.deepcopy(w_theta_alpha_array)[i] for i in sorted_indexes]
 
                 # Case 1: assign a channel at a time to a higher precision. Save the configuration if the cost decreases
                 w_theta_alpha_array_tmp = [copy.deepcopy(w_theta_alpha_array)[i] for i in sorted_indexes]
@@ -95,10 +98,11 @@ def optimize_prec_assignment(model: MPS,
                         while w_theta_alpha_array_tmp[i] > 0:
                             w_theta_alpha_array_tmp[i] -= (1. / layer.w_mps_quantizer.theta_alpha.shape[1])
                             w_theta_alpha_array_tmp[j] += (1. / layer.w_mps_quantizer.theta_alpha.shape[1])
-                            cost_tmp = _compute_cost(model, layer, w_theta_alpha_array_tmp, cost_fn_map, lname, node)
+                            cost_tmp = _compute_cost(model, layer, [w_theta_alpha_array_tmp[k] for k in inverse_indexes],
+                                                     cost_fn_map, lname, node)
                             if cost_tmp < best_cost:
                                 best_cost = cost_tmp
-                                best_cost_w_theta_alpha_array = copy.deepcopy(w_theta_alpha_array_tmp) # TODO: check sorting!!!
+                                best_cost_w_theta_alpha_array = copy.deepcopy(w_theta_alpha_array_tmp)
                                 print("* Layer '{}' cost decreased from {} to {} with the following channels counts for each precision:"
                                       "\n\tprecisions: {}"
                                       "\n\toriginal:   {}"
@@ -120,7 +124,8 @@ def optimize_prec_assignment(model: MPS,
                         while w_theta_alpha_array_tmp[i] > 0:
                             w_theta_alpha_array_tmp[i] -= (1. / layer.w_mps_quantizer.theta_alpha.shape[1])
                             w_theta_alpha_array_tmp[j] += (1. / layer.w_mps_quantizer.theta_alpha.shape[1])
-                            cost_tmp = _compute_cost(model, layer, w_theta_alpha_array_tmp, cost_fn_map, lname, node)
+                            cost_tmp = _compute_cost(model, layer, [w_theta_alpha_array_tmp[k] for k in inverse_indexes],
+                                                     cost_fn_map, lname, node)
                             if cost_tmp < best_cost:
                                 best_cost = cost_tmp
                                 best_cost_w_theta_alpha_array = copy.deepcopy(w_theta_alpha_array_tmp)
@@ -136,7 +141,7 @@ def optimize_prec_assignment(model: MPS,
                 best_model_cost += best_cost
 
                 # Sort the best configuration according to the original order of the precisions
-                best_theta_alpha_array = torch.tensor([best_cost_w_theta_alpha_array[i] for i in sorted_indexes])
+                best_theta_alpha_array = torch.tensor([best_cost_w_theta_alpha_array[i] for i in inverse_indexes])
                 best_theta_alpha_array = torch.mul(best_theta_alpha_array, layer.w_mps_quantizer.theta_alpha.shape[1])
 
                 # Update the layer with the best configuration.
